@@ -102,6 +102,9 @@ def toBoolean (v : Str) : Except Err Bool :=
 
 def getBoolean (d : Ini) (s k : Str) : Except Err Bool := (get d s k).bind toBoolean
 
+/-- the value stored under option `k` of section `s`, if any -/
+def opt (d : Ini) (s k : Str) : Option Str := (d.lookup s).bind (·.lookup k)
+
 /-- no `[DEFAULT]` block: what every document built through `add_section` satisfies -/
 def NoDefault (d : Ini) : Prop := d.lookup DEFAULT = none
 
